@@ -58,6 +58,7 @@ class LoopSum:
         self.ctx = ()           # enclosing loop uids
         self.result = None      # for forced map/collect: element result value
         self.frame_chain = ()
+        self.pc = ()            # path condition at loop entry
 
     def carried(self, pred):
         """keys of carried places matching pred(keyrepr)"""
@@ -898,16 +899,30 @@ class VF:
         """evaluate two alternatives under cond / not cond and merge"""
         s0 = self.store
         self.store = dict(s0)
+        n0 = len(self.pc)
         self.pc.append(cond)
         v1 = then_fn()
-        self.pc.pop()
+        keep1 = self.pc[n0:]        # cond + what the branch itself learnt by leaving through inner guards
+        del self.pc[n0:]
         d1, s1 = self.dead, self.store
         self.dead = False
         self.store = dict(s0)
         self.pc.append(T.lnot(cond))
         v2 = else_fn()
-        self.pc.pop()
+        keep2 = self.pc[n0:]
+        del self.pc[n0:]
         d2, s2 = self.dead, self.store
+        # a branch that leaves (return / break / continue / panic) puts the rest of the enclosing block under the other
+        # branch's condition: `if c { return } rest` runs `rest` under not c, exactly like `if !c { rest }`
+        # (an arm that leaves on the error of a Result is the `?` operator written out: like `?`, it puts no condition on what follows --
+        # what follows is the success path by construction, and rules read it with assume_ok)
+        err_test = T.is_app(cond, 'is:Err') or (cond[0] == 'not' and T.is_app(cond[1], 'is:Err'))
+        if err_test:
+            pass
+        elif d1 and not d2:
+            self.pc.extend(keep2)
+        elif d2 and not d1:
+            self.pc.extend(keep1)
         if d1 and d2:
             self.dead = True
             self.store = s0
@@ -1044,7 +1059,9 @@ class VF:
             # inside an enclosing discovery pass only the write set matters: one pass, no havoc
             self.loop_exits.append([])
             self.loop_pc_base = self.loop_pc_base + [len(self.pc)]
+            npc = len(self.pc)
             res = body_fn()
+            del self.pc[npc:]           # what one iteration learnt by leaving through a guard does not outlive it
             self.loop_exits.pop()
             self.loop_pc_base = self.loop_pc_base[:-1]
             self.dead = False
@@ -1059,7 +1076,9 @@ class VF:
         outer_written = getattr(self, 'written', None)
         self.written = set()
         self.disc_mode += 1
+        npc = len(self.pc)
         body_fn()
+        del self.pc[npc:]
         self.disc_mode -= 1
         written = self.written
         self.written = outer_written if outer_written is not None else set()
@@ -1116,6 +1135,8 @@ class VF:
         self.loop_stack.append(ls.uid)
         res = body_fn()
         self.loop_stack.pop()
+        body_pc = self.pc[npc:]
+        del self.pc[npc:]
         ls.events = self.events[ev1:]
         raw_exits = self.loop_exits.pop()
         self.loop_pc_base = self.loop_pc_base[:-1]
@@ -1182,6 +1203,7 @@ class VF:
         ls.owner = self.owner()
         ls.sp = node.get('sp') if node else None
         ls.ctx = tuple(self.loop_stack)
+        ls.pc = tuple(self.pc_outer + self.pc)      # path condition under which the loop is reached (conditions of enclosing loops' bodies included)
         self.loops.append(ls)
         return ls
 
